@@ -159,6 +159,13 @@ func (ex *Exec) readDense(cells []Value, idx *Term, elem types.Type) Value {
 	if len(cells) == 0 {
 		return ex.zero(elem)
 	}
+	// a run of consecutive bytes of one ideal stream is read as the stream itself
+	if nm, base, ok := uniformStream(cells); ok {
+		if v := ex.viewOf(nm); v != nil {
+			return ex.readContent(v.elem, v.content, ex.C.Bin(OAdd, v.off, ex.C.Bin(OAdd, idx, ex.i64(base))))
+		}
+		return ex.C.UF(nm, BV(8), ex.C.Bin(OAdd, idx, ex.i64(base)))
+	}
 	var res Value = cells[len(cells)-1]
 	for i := len(cells) - 2; i >= 0; i-- {
 		m, ok := ex.merge(ex.C.Eq(idx, ex.i64(int64(i))), cells[i], res)
@@ -224,6 +231,27 @@ func (ex *Exec) copyElems(dst *ArrObj, doff *Term, src *ArrObj, soff *Term, n *T
 			}
 			return
 		}
+		// functional byte source: the cells become a lazy view of the source
+		if !src.isDense() && dconst {
+			if _, isByte := ex.zero(src.Elem).(*Term); isByte && ex.zero(src.Elem).(*Term).Sort == BV(8) {
+				v := ex.newView(src.Content, soff, src.Elem)
+				hiV := len(dst.Dense)
+				if nconst {
+					hiV = int(dk + nk)
+				}
+				for j := int(dk); j < hiV; j++ {
+					i := ex.i64(int64(j) - dk)
+					vt := c.UF(v.name, BV(8), i)
+					if nconst {
+						dst.Dense[j] = vt
+					} else {
+						m, _ := ex.merge(c.Cmp(OUlt, i, n), vt, dst.Dense[j])
+						dst.Dense[j] = m
+					}
+				}
+				return
+			}
+		}
 		// general: every destination cell j gets ite(doff<=j<doff+n, src[j-doff+soff], old)
 		var snapshot []Value
 		if src.isDense() {
@@ -268,6 +296,17 @@ func (ex *Exec) copyElems(dst *ArrObj, doff *Term, src *ArrObj, soff *Term, n *T
 	}
 	node := &symCopy{prev: dst.Content, doff: doff, soff: soff, n: n}
 	if src.isDense() {
+		if nm, base, ok := uniformStream(src.Dense); ok {
+			if v := ex.viewOf(nm); v != nil {
+				node.src = v.content
+				node.soff = c.Bin(OAdd, v.off, c.Bin(OAdd, soff, ex.i64(base)))
+			} else {
+				node.src = symBase{name: nm}
+				node.soff = c.Bin(OAdd, soff, ex.i64(base))
+			}
+			dst.Content = node
+			return
+		}
 		node.srcDense = make([]Value, len(src.Dense))
 		for i := range node.srcDense {
 			node.srcDense[i] = copyVal(src.Dense[i])
@@ -282,4 +321,66 @@ type unsupportedErr struct{ msg string }
 
 func unsupported(format string, args ...interface{}) unsupportedErr {
 	return unsupportedErr{fmt.Sprintf(format, args...)}
+}
+
+// uniformStream: are the cells exactly name(base), name(base+1), ... of one
+// uninterpreted byte stream (len >= 2)?
+func uniformStream(cells []Value) (string, int64, bool) {
+	if len(cells) < 2 {
+		return "", 0, false
+	}
+	t0, ok := cells[0].(*Term)
+	if !ok || t0.Op != OUF || len(t0.Args) != 1 || !t0.Args[0].IsConst() || t0.Sort.K != KBV || t0.Sort.W != 8 {
+		return "", 0, false
+	}
+	base := int64(t0.Args[0].Val)
+	for i, c := range cells {
+		t, ok := c.(*Term)
+		if !ok || t.Op != OUF || t.Name != t0.Name || len(t.Args) != 1 || !t.Args[0].IsConst() || int64(t.Args[0].Val) != base+int64(i) {
+			return "", 0, false
+		}
+	}
+	return t0.Name, base, true
+}
+
+// ---------------------------------------------------------------------------
+// Views: bytes copied from a functional array into a dense array are not
+// resolved eagerly (that would build one ite-tree per byte); the dense cells
+// hold applications view!k(i) of a named snapshot (content, offset). They are
+// re-rolled into the snapshot when copied on or compared as a block, and
+// expanded by definition (view!k(i) = content[off+i]) only if they reach a
+// solver query.
+type viewDef struct {
+	name    string
+	content symContent
+	off     *Term
+	elem    types.Type
+}
+
+func (ex *Exec) newView(content symContent, off *Term, elem types.Type) *viewDef {
+	ex.viewSeq++
+	v := &viewDef{name: fmt.Sprintf("view!%d", ex.viewSeq), content: content, off: off, elem: elem}
+	if ex.views == nil {
+		ex.views = map[string]*viewDef{}
+	}
+	ex.views[v.name] = v
+	return v
+}
+
+func (ex *Exec) viewOf(name string) *viewDef {
+	if ex.views == nil {
+		return nil
+	}
+	return ex.views[name]
+}
+
+// resolveView expands a view application into a read of its snapshot.
+func (ex *Exec) resolveView(t *Term) *Term {
+	if t.Op == OUF && len(t.Args) == 1 {
+		if v := ex.viewOf(t.Name); v != nil {
+			r := ex.readContent(v.elem, v.content, ex.C.Bin(OAdd, v.off, t.Args[0])).(*Term)
+			return r
+		}
+	}
+	return t
 }
